@@ -304,20 +304,8 @@ MINIMIZER_PATCH = [
         2,
     ),
     (
-        "                if isinstance(source, str):\n                    protected.add(source)\n",
-        "                if isinstance(source, str):\n"
-        "                    # the source may be an attribute path (``var_0.balance``): protect its root\n"
-        "                    protected.add(source.split(\".\", 1)[0])\n",
-    ),
-    (
-        "                test_case = test_case_chrom.test_case\n                i = 0\n                while i < test_case.size():\n",
-        "                test_case = test_case_chrom.test_case\n"
-        "                protected = get_assertion_protected_variables(test_case)\n"
-        "                i = 0\n"
-        "                while i < test_case.size():\n"
-        "                    if _is_assertion_protected(test_case.get_statement(i), protected):\n"
-        "                        i += 1\n"
-        "                        continue\n",
+        "                    if test_case.get_statement(i).bound_variable in protected:\n",
+        "                    if _is_assertion_protected(test_case.get_statement(i), protected):\n",
     ),
 ]
 
@@ -409,7 +397,6 @@ def _fix_minimizer():
     pp.ForwardIterativeMinimizationVisitor.visit_default_test_case = ns["ForwardIterativeMinimizationVisitor"].visit_default_test_case
     pp.BackwardIterativeMinimizationVisitor.visit_default_test_case = ns["BackwardIterativeMinimizationVisitor"].visit_default_test_case
     pp.CombinedMinimizationVisitor._minimize_statements_across_test_suite = ns["CombinedMinimizationVisitor"]._minimize_statements_across_test_suite
-    pp._directly_asserted_variables = ns["_directly_asserted_variables"]  # used by the live get_assertion_protected_variables
 
 
 def _fix_filter():
